@@ -11,12 +11,21 @@ CLAIMED = {
     "C03": dict(cat="model_checking", tech="complete control-function table x extreme parameter classes + macro/sixel/font/avatar extremes executed against the real emulations under a 5 s / 1 GiB sandbox; limits judged by TLC on the trace (Trace_Term), post-states compared with the clamped Term.tla model; GrowthBounded model-checked",
                 text="Every CSI final x intermediate x parameter vector over {0,1,80,25,2^16,10^6,2^31-1} (all vectors up to length 1-2, seeded beyond), recursive macros, hex repeat groups, sixel raster/repeat/colour headers, font DCS payloads and Avatar repeats run in crash-contained workers with a 5 s watchdog and 1 GiB address space; a timeout, allocation failure, stack overflow or a >5 s step is a violation. The model's clamps are model-checked (GrowthBounded) and each post-state is compared with the model.",
                 note="time and memory are measured on this machine with the property's own generous limits; file-header extremes are exercised by the C02 check", ref="4/C03"),
+    "C04": dict(cat="model_checking", tech="TLA+ display-equivalence + token grammar of ANSI writer output (AnsiOut.tla) with an abstract writer and a reader model, model-checked on all rows of width <= 4; TLC-enumerated option space and small-scope buffers replayed; cell-wise equivalence judged by TLC on traces",
+                text="AnsiOut.tla defines Shown (bold->bright, ice normalisation), display equivalence and the writer's token grammar; TLC checks that every stream the abstract writer may emit is read back to an equivalent row; all 6912 save-option configurations and 12568 small-scope buffers plus seeded random buffers go through Buffer::to_bytes / from_bytes; every reloaded cell is compared with its source cell by Trace_AnsiOut, a reader model over the tokenised output separates writer from reader faults (drift).",
+                note="modern_terminal_output excluded as the property says; source cells in ice mode carry no blink attribute; control characters only with ControlCharHandling::IcyTerm", ref="4/C04"),
+    "C07": dict(cat="model_checking", tech="IcyDraw chunk/record codec specified in TLA+ from ICEDFormat.md (IcyDraw.tla), decode o encode model-checked; TLC-enumerated geometry x flag x row-shape cases and seeded documents saved/reloaded; DocEq judged by TLC, spec decoder of the chunk payloads as model layer",
+                text="IcyDraw.tla decodes header, layer records, cell records (short/long/invisible/end-of-row), continuation chunks, palette, SAUCE and font chunks; TLC checks Decode(Encode(l)) = l for all layers <= 3x2 over six cell classes and decoder totality; 1555 row shapes, 31104 geometry x flag cases (sampled in quick) and seeded 1-6 layer documents are saved losslessly and reloaded; the reloaded document is compared field by field with the source (DocEq) by TLC, and the spec decoder of the recorded chunk payloads must agree with both.",
+                note="PNG framing, zlib and base64 are unwrapped by the harness with the same crates; continuation chunks (> 3 MB) only in R1", ref="4/C07"),
     "C09": dict(cat="model_checking", tech="caret-in-screen / fixed-grid invariants evaluated by TLC on the recorded geometry after every character (Trace_Term)",
                 text="After every character of every generated stream (until a resize request) the recorded caret, terminal size and buffer size must satisfy CaretInScreen, and Viewdata/Mode 7 the fixed 40x24 grid; evaluated by TLC on traces of the real engine. Bounded/sampled exploration of the input space.",
                 note="geometry read through the public API after each character", ref="4/C09"),
     "C10": dict(cat="model_checking", tech="boundary code points pushed through every entry point (DECFRA, clipboard records, glyph tables, IcyDraw cell records and strings); recorded cell values / string bytes judged by TLC against Utf8.tla (Scalar, WellFormed); MC_Utf8 and MC_Term Sane on the model",
                 text="All 65536 16-bit clipboard values, boundary and seeded 32-bit values in DECFRA (five emulations, full cell projection) and in IcyDraw character fields (first and continuation chunk), PSF2 glyph tables around 0xD800 glyphs and ill-formed title / font-name bytes are fed to the real engine; every stored character must be a Unicode scalar value and every string well-formed UTF-8, evaluated by TLC on the recorded values. A worker abort on an invalid char (UB check) is also a violation.",
                 note="materialising an invalid char is UB: observation after the fact is reliable in practice only", ref="4/C10"),
+    "C11": dict(cat="model_checking", tech="SAUCE split/join specified in TLA+ (Sauce.tla) and model-checked on a scaled-down layout; TLC-enumerated field-length / comment / flag / width / writer cases replayed; metadata and picture equality judged by TLC",
+                text="Sauce.tla defines File = content EOF [COMNT n*64] record, Split per SAUCE rev 5 and the per-variant field table; TLC checks Split(Join(c, m)) = <c, m> and totality on all strings of the scaled layout; 13240 TLC cases over ten writers are saved with SAUCE and reloaded: every field the variant carries must come back, the buffer width must follow the record, and picture(content+SAUCE) = picture(content) when the record equals the loader defaults; byte-exact Split of the file tail is the model layer.",
+                note="'can carry' = SAUCE rev 5 defines the field for the data/file type and the engine's extractor populates it", ref="4/C11"),
     "C12": dict(cat="model_checking", tech="TLA+ pixel model of the colour optimiser scan (ColorOpt.tla) model-checked over glyph/colour classes; TLC witnesses instantiated with real glyphs; rendered-image equality and per-cell rewrite rules validated by TLC on traces",
                 text="ColorOpt.tla defines Pixel/RenderEq and the optimiser as a scan carrying the previous attribute; TLC checks PixelsOk/OnlyAllowed for every carried-colour state x next-cell class; 9000 TLC witnesses are instantiated with real glyphs of built-in (and derived user) fonts, every glyph of all built-in fonts is swept, random 1-4 layer documents are optimised with both whitespace settings; the property layer is equality of the two render_to_rgba images and sizes, the model layer re-derives every rewrite.",
                 note="reference renderer = Buffer::render_to_rgba; direct RGB 0,0,0 (equals the transparent colour) and font pages without a font are outside the stated domain", ref="4/C12"),
@@ -26,9 +35,15 @@ CLAIMED = {
     "C14": dict(cat="model_checking", tech="TLA+ queue model (SixelQueue) with independent Submit/Finish/Poll/Clear actions; every TLC behaviour enacted against the real Buffer through a cfg-guarded gate hook; traces validated by TLC; decoder character machine model (SixelDecoder)",
                 text="TLC explores every interleaving of submissions, completions, polls and clears for K<=4 images and checks arrival order / no loss / no duplicate / shadow rule / poll-never-waits on the model; every maximal behaviour is then enacted on the real engine (completion order forced through the gate) and each observed queue/layer state is judged by Trace_Sixel. Decoder payloads (all <=4-token payloads + seeded) are decoded by the real parser and judged Rectangular.",
                 note="completion order controlled by the gate hook; scheduling inside a decode not explored; K<=4", ref="4/C14"),
+    "C15": dict(cat="model_checking", tech="token grammars and byte-level reader models of six text formats (TextOut.tla) model-checked with abstract writers; all attribute pairs and row shapes exported by TLC and replayed; per-format cell equivalence judged by TLC",
+                text="TextOut.tla specifies Avatar, PCBoard, Ctrl-A, Renegade, ASCII and ATASCII output and readers; TLC checks writer/reader consistency for rows of width <= 4 under three screen preparations; all 16384 ordered attribute pairs and 300 row shapes per format plus random pictures inside the stated domain are written and parsed back by the engine; cells are compared (character, fg 0..15, bg 0..7; ATASCII inverse video) by Trace_TextOut.",
+                note="printable CP437 = 0x20-0x7E, 0x80-0xFE minus each format's lead-in characters; foreground of blank cells not compared", ref="4/C15"),
     "C16": dict(cat="model_checking", tech="TLA+ model of the palette table checked by TLC; TLC-generated operation sequences replayed into the Rust code; recorded traces validated by Trace_Palette under TLC",
                 text="Palette.tla models the index table; TLC checks InsertOk on all operation sequences <= 5 and exports witnesses that are replayed into icy_engine::Palette; every recorded insert (direct, via SGR/CSI t), every palette-file export/import and the 6-bit codec are judged by Trace_Palette. Bounded + sampled, not a proof of the Rust code.",
                 note="trusts the harness projection (get_rgb of every index after each call) and TLC", ref="4/C16"),
+    "C17": dict(cat="model_checking", tech="font carriers (PSF1/PSF2/raw/CTerm DCS/XBin/ADF/IDF/IcyDraw blocks) and TheDraw TDF specified in TLA+ (Fonts.tla, Tdf.tla), decode o encode model-checked; TLC-enumerated height x count x carrier and TDF layout cases with seeded glyph data replayed; equality judged by TLC",
+                text="Fonts.tla / Tdf.tla decode every carrier from the format descriptions; TLC checks round trips and totality on scaled-down layouts; 290 height x glyph-count x carrier cases, all built-in font pages and SAUCE fonts, and 1872 TDF layout cases (types, defined-glyph subsets, sizes, names, bundles) with seeded random glyph bytes are encoded and decoded by the engine; dimensions, counts and glyph bytes are compared by Trace_Fonts, the spec decoder of the carrier bytes is the model layer.",
+                note="TheDrawFont glyph tables are private: glyph data is observed through the engine's re-encoding (decoded by Tdf.tla) and a digest of its renderer", ref="4/C17"),
     "C18": dict(cat="model_checking", tech="exhaustive enumeration of the finite domain; every engine result judged by TLC against Attr.tla/Cp437.tla identities",
                 text="The domain is finite and enumerated completely: every (byte, mode), every (fg,bg,blink,bold,mode), every code of every converter is one recorded engine call, judged by Trace_Attr; MC_Attr shows the design codec is an inverse pair.",
                 note="exhaustive over the stated domain; trusts the harness to record the engine's return values", ref="4/C18"),
